@@ -4,6 +4,11 @@ import json, os, subprocess
 ROOT = os.path.dirname(os.path.dirname(os.path.abspath(__file__)))
 
 CHECKS = {
+ "C04": ("exploration",
+         "deterministic simulation: seeded FB banks x (inputs, dt) traces incl. dt=0 / exact-PT / jumps / restarts, lock-step IEC reference models compared after every call",
+         "Seeded search over call traces against independent IEC reference models of TON/TOF/TP, CTU/CTD/CTUD (all typed variants), R_TRIG/F_TRIG, SR/RS; Q/ET/CV compared after every single call through per-call-site output copies, plus the independence invariant for uncalled instances. Sampling, not proof.",
+         "Trusts the reference models (DESIGN Appendix B) and the documented relaxations: ET after expiry may be 0 or PT; exact comparison suspended after PT changes while timing. Clock is written directly (stub).",
+         "DESIGN.md section 3 C04"),
  # id: (category, technique, level text, level_note, design_ref)
  "C06": ("exploration",
          "deterministic simulation: seeded task sets x clock timelines (stalls, jumps) x SINGLE edges x restarts, lock-step reference scheduler",
